@@ -23,18 +23,21 @@ inductive MErr
   | sigOverrunMulti    -- multiple-message flag set and not even one cell
   | sigOverrun
   | layout             -- the extracted layout is unusable (tie broken)
+  | baseOverrun        -- 1005/1006: fewer message bits than the layout needs
+  | baseWrongType      -- 1005/1006: the message type field is not the expected one
 deriving DecidableEq, Repr
 
 def MErr.toString : MErr → String
   | .headerShort => "header-short" | .notMsm => "not-msm" | .cellMaskTooLong => "cellmask-too-long"
   | .headerShortMask => "header-short-mask" | .wrongFamily => "wrong-family" | .satOverrun => "sat-overrun"
   | .sigOverrunMulti => "sig-overrun-multi" | .sigOverrun => "sig-overrun" | .layout => "layout"
+  | .baseOverrun => "base-overrun" | .baseWrongType => "base-wrong-type"
 
 inductive Res (α : Type)
   | ok (a : α)
   | err (e : MErr)
   | panic
-deriving Repr
+deriving Repr, DecidableEq
 
 instance : Monad Res where
   pure := .ok
@@ -118,39 +121,53 @@ deriving DecidableEq, Repr
 
 def countCells (cells : List (List Bool)) : Nat := (cells.map (fun r => (r.filter id).length)).sum
 
+/-- Sequential fields `(signed, width)` starting at `pos`. -/
+def readFields (bs : Bytes) : List Col → Nat → Res (List Int)
+  | [], _ => .ok []
+  | (s, w) :: rest, pos => do
+    let v ← rdField bs pos s w
+    let vs ← readFields bs rest (pos + w)
+    pure (v :: vs)
+
+def widthOf (cols : List Col) : Nat := (cols.map (·.2)).sum
+
+/-- The fixed part of the header layout (everything before the variable-length cell mask):
+    type, station, timestamp, multiple flag, IODS, session time, clock steering, external
+    clock, smoothing flag, smoothing interval, satellite mask, signal mask. -/
+def hdrCols : Option (List Col) := (colsOf Gen.header_layout).map (fun l => l.take 12)
+
+/-- Build the header record from the twelve fixed field values and the cell mask. -/
+def mkHeader (vals : List Int) (cellMask : Nat) : MsmHeader :=
+  let g := fun i => (vals.getD i 0).toNat
+  let sats := idsOfMask 64 (g 10)
+  let sigs := idsOfMask 32 (g 11)
+  let cells := cellsOfMask cellMask sats.length sigs.length
+  { typ := g 0, station := g 1, ts := g 2, multiple := g 3 == 1, iods := g 4, sessionTime := g 5,
+    clockSteering := g 6, externalClock := g 7, smoothing := g 8 == 1, smoothingInterval := g 9,
+    satMask := g 10, sigMask := g 11, cellMask := cellMask, sats := sats, sigs := sigs, cells := cells,
+    numCells := countCells cells }
+
 /-- `header.GetMSMHeader`: the header and the bit position after it. -/
 def getMSMHeader (bs : Bytes) : Res (MsmHeader × Nat) :=
-  -- lenMessageInBits := (len(bitStream) - 3 - 3) * 8   (Go int: may be negative)
-  if ((bs.length : Int) - 6) * 8 < Gen.header_minBitsInHeader then .err .headerShort
-  else do
-    let typ ← rdU bs 24 12
-    if !headerAcceptsTyp typ then .err .notMsm
-    else
-      let station ← rdU bs 36 12
-      let ts ← rdU bs 48 30
-      let mm ← rdU bs 78 1
-      let iods ← rdU bs 79 3
-      let stt ← rdU bs 82 7
-      let clk ← rdU bs 89 2
-      let ext ← rdU bs 91 2
-      let gi ← rdU bs 93 1
-      let si ← rdU bs 94 3
-      let satMask ← rdU bs 97 64
-      let sigMask ← rdU bs 161 32
-      let sats := idsOfMask 64 satMask
-      let sigs := idsOfMask 32 sigMask
-      let lenCell := sats.length * sigs.length
-      if lenCell > 64 then .err .cellMaskTooLong
-      else if bs.length * 8 < 24 + 24 + 169 + lenCell then .err .headerShortMask
+  match hdrCols with
+  | none => .err .layout
+  | some cols =>
+    -- lenMessageInBits := (len(bitStream) - 3 - 3) * 8   (Go int: may be negative)
+    if ((bs.length : Int) - 6) * 8 < Gen.header_minBitsInHeader then .err .headerShort
+    else do
+      let vals ← readFields bs cols 24
+      let typ := (vals.getD 0 0).toNat
+      if !headerAccepts (typ : Int) then .err .notMsm
       else
-        let cellMask ← rdU bs 193 lenCell
-        let cells := cellsOfMask cellMask sats.length sigs.length
-        pure ({ typ := typ, station := station, ts := ts, multiple := mm == 1, iods := iods,
-                sessionTime := stt, clockSteering := clk, externalClock := ext, smoothing := gi == 1,
-                smoothingInterval := si, satMask := satMask, sigMask := sigMask, cellMask := cellMask,
-                sats := sats, sigs := sigs, cells := cells, numCells := countCells cells }, 193 + lenCell)
-where
-  headerAcceptsTyp (typ : Nat) : Bool := headerAccepts (typ : Int)
+        let sats := idsOfMask 64 (vals.getD 10 0).toNat
+        let sigs := idsOfMask 32 (vals.getD 11 0).toNat
+        let lenCell := sats.length * sigs.length
+        if lenCell > 64 then .err .cellMaskTooLong
+        else if bs.length * 8 < 24 + 24 + 169 + lenCell then .err .headerShortMask
+        else
+          let pos := 24 + widthOf cols
+          let cellMask ← rdU bs pos lenCell
+          pure (mkHeader vals cellMask, pos + lenCell)
 
 /-! ### Satellite and signal cells -/
 
@@ -165,20 +182,28 @@ def MsmKind.sigCols : MsmKind → Option (List Col)
   | .msm4 => colsOf Gen.sig4_columns
   | .msm7 => colsOf Gen.sig7_columns
 
-def widthOf (cols : List Col) : Nat := (cols.map (·.2)).sum
+/-- The gate of each decoder family (`utils.MSM4` / `utils.MSM7`). -/
+def MsmKind.accepts : MsmKind → Int → Bool
+  | .msm4, t => isMSM4 t
+  | .msm7, t => isMSM7 t
+
+/-- The MSM4 readers subtract the 24 CRC bits in their length guards, the MSM7 readers do not. -/
+def crcSlack : MsmKind → Nat
+  | .msm4 => 24
+  | .msm7 => 0
 
 /-- `GetSatelliteCells`: MSM4 subtracts the CRC bits in its guard, MSM7 does not. -/
 def getSatelliteCells (k : MsmKind) (bs : Bytes) (start : Nat) (nsat : Nat) : Res (List (List Int)) :=
   match k.satCols with
   | none => .err .layout
   | some cols =>
-    let bitsLeft : Int := (bs.length : Int) * 8 - start
-    let avail : Int := match k with | .msm4 => bitsLeft - 24 | .msm7 => bitsLeft
-    if avail < (nsat * widthOf cols : Nat) then .err .satOverrun
+    if ((bs.length : Int) * 8 - start) - (crcSlack k : Nat) < (nsat * widthOf cols : Nat) then .err .satOverrun
     else readColumns bs nsat cols start
 
 structure SigCell where
-  satIdx : Nat          -- index of the satellite cell the signal cell points to
+  satIdx : Nat          -- index into the satellite cells (`&satCells[i]`)
+  sigIdx : Nat := 0     -- index into the signal list (`header.Signals[j]`)
+  cellIdx : Nat := 0    -- index into the column arrays (`rangeDelta[c]`, …)
   satId : Nat
   sigId : Nat
   vals : List Int
@@ -191,7 +216,7 @@ def attachRow (sigs : List Nat) (satIdx satId : Nat) (rows : List (List Int)) (n
   | [], _, c => ([], c)
   | b :: rest, j, c =>
     if c < n && b then
-      let cell : SigCell := { satIdx := satIdx, satId := satId, sigId := sigs.getD j 0, vals := rowOf rows c }
+      let cell : SigCell := { satIdx := satIdx, sigIdx := j, cellIdx := c, satId := satId, sigId := sigs.getD j 0, vals := rowOf rows c }
       let (more, c') := attachRow sigs satIdx satId rows n rest (j + 1) (c + 1)
       (cell :: more, c')
     else attachRow sigs satIdx satId rows n rest (j + 1) c
@@ -211,7 +236,7 @@ def getSignalCells (k : MsmKind) (bs : Bytes) (pos : Nat) (h : MsmHeader) : Res 
     let bitsPerCell := widthOf cols
     -- uint arithmetic in Go; `pos ≤ 8 * len` (and, for MSM4, 24 more) holds after the satellite guard
     let bitsLeft : Int := (bs.length : Int) * 8 - pos
-    let bitsLeftForCheck : Int := match k with | .msm4 => bitsLeft - 24 | .msm7 => bitsLeft
+    let bitsLeftForCheck : Int := bitsLeft - (crcSlack k : Nat)
     if bitsLeftForCheck < 0 then .panic   -- the Go `uint` subtraction would wrap: never reached (C07)
     else
       let cellsAvailable := (bitsLeft / bitsPerCell).toNat
@@ -234,8 +259,7 @@ def transpose (cols : List (List Int)) (n : Nat) : List (List Int) :=
 /-- `type_msm4/message.GetMessage` / `type_msm7/message.GetMessage`. -/
 def decodeMsm (k : MsmKind) (bs : Bytes) : Res MsmMsg := do
   let (h, pos) ← getMSMHeader bs
-  let family := match k with | .msm4 => isMSM4 (h.typ : Int) | .msm7 => isMSM7 (h.typ : Int)
-  if !family then .err .wrongFamily
+  if !k.accepts (h.typ : Int) then .err .wrongFamily
   else
     match k.satCols with
     | none => .err .layout
